@@ -476,7 +476,9 @@ func buildQuotesGroup() ([]*target, error) {
 // ---------------------------------------------------------------------------------------
 // Descriptor verification entry points (pure functions over signed blobs).
 
-type rtLookup struct{ rts map[common.Namespace]*registry.Runtime }
+type rtLookup struct {
+	rts map[common.Namespace]*registry.Runtime
+}
 
 func (l *rtLookup) get(id common.Namespace) (*registry.Runtime, error) {
 	if rt, ok := l.rts[id]; ok {
@@ -484,21 +486,27 @@ func (l *rtLookup) get(id common.Namespace) (*registry.Runtime, error) {
 	}
 	return nil, registry.ErrNoSuchRuntime
 }
-func (l *rtLookup) Runtime(_ ctxT, id common.Namespace) (*registry.Runtime, error)          { return l.get(id) }
-func (l *rtLookup) SuspendedRuntime(_ ctxT, id common.Namespace) (*registry.Runtime, error) { return nil, registry.ErrNoSuchRuntime }
-func (l *rtLookup) AnyRuntime(_ ctxT, id common.Namespace) (*registry.Runtime, error)       { return l.get(id) }
-func (l *rtLookup) AllRuntimes(ctxT) ([]*registry.Runtime, error)                           { return nil, nil }
-func (l *rtLookup) Runtimes(ctxT) ([]*registry.Runtime, error)                              { return nil, nil }
+func (l *rtLookup) Runtime(_ ctxT, id common.Namespace) (*registry.Runtime, error) { return l.get(id) }
+func (l *rtLookup) SuspendedRuntime(_ ctxT, id common.Namespace) (*registry.Runtime, error) {
+	return nil, registry.ErrNoSuchRuntime
+}
+func (l *rtLookup) AnyRuntime(_ ctxT, id common.Namespace) (*registry.Runtime, error) {
+	return l.get(id)
+}
+func (l *rtLookup) AllRuntimes(ctxT) ([]*registry.Runtime, error) { return nil, nil }
+func (l *rtLookup) Runtimes(ctxT) ([]*registry.Runtime, error)    { return nil, nil }
 
 type noNodes struct{}
 
-func (noNodes) NodeBySubKey(ctxT, signature.PublicKey) (*node.Node, error)      { return nil, registry.ErrNoSuchNode }
-func (noNodes) Nodes(ctxT) ([]*node.Node, error)                                { return nil, nil }
-func (noNodes) GetEntityNodes(ctxT, signature.PublicKey) ([]*node.Node, error)  { return nil, nil }
+func (noNodes) NodeBySubKey(ctxT, signature.PublicKey) (*node.Node, error) {
+	return nil, registry.ErrNoSuchNode
+}
+func (noNodes) Nodes(ctxT) ([]*node.Node, error)                               { return nil, nil }
+func (noNodes) GetEntityNodes(ctxT, signature.PublicKey) ([]*node.Node, error) { return nil, nil }
 
 var (
-	c16Logger   = logging.GetLogger("c16")
-	regParams   = &registry.ConsensusParameters{
+	c16Logger = logging.GetLogger("c16")
+	regParams = &registry.ConsensusParameters{
 		MaxNodeExpiration: 20, EnableRuntimeGovernanceModels: map[registry.RuntimeGovernanceModel]bool{registry.GovernanceEntity: true, registry.GovernanceRuntime: true},
 		TEEFeatures: &node.TEEFeatures{SGX: node.TEEFeaturesSGX{PCS: true, SignedAttestations: true, DefaultMaxAttestationAge: 1200, TDX: true}, FreshnessProofs: true},
 	}
@@ -565,7 +573,9 @@ func buildDescriptorsGroup() ([]*target, error) {
 	lookupSGX := &rtLookup{rts: map[common.Namespace]*registry.Runtime{rtSGX.ID: rtSGX, km.ID: km}}
 	var tgs []*target
 
-	signedNode := func(n *node.Node) []byte { return cbor.Marshal(must(node.MultiSignNode(nodeSigners, registry.RegisterNodeSignatureContext, n))) }
+	signedNode := func(n *node.Node) []byte {
+		return cbor.Marshal(must(node.MultiSignNode(nodeSigners, registry.RegisterNodeSignatureContext, n)))
+	}
 	vn := &target{name: "verify-node", doc: "input = MultiSignedNode: 1 envelope decoded, 2 signatures ok + descriptor decoded, 3 VerifyRegisterNodeArgs accepted",
 		seeds: []seed{{"node", signedNode(testNode(nil))}}, wantDepth: 3, hostile: true, run: runVerifyNode(lookupPlain)}
 	tgs = append(tgs, vn, signedVariant(vn, seedsOf[node.Node]("node", testNode(nil)), 3, multiSignNodeBlob))
